@@ -605,20 +605,25 @@ class Er(Pipeline):
         return {"utts": utts, "batch_sizes": rng.sample([1, 2, 3, 100], 3), "replace": rng.choice([None, None, [["b", "a"]], [["c", "d"], ["a", "b"]]]),
                 "ignore": rng.choice([None, None, ["a"], ["d", "b"]]), "per_utt": rng.random() < 0.35, "distances": rng.random() < 0.25,
                 "costs": rng.choice([None, None, None, "nist", [1.0, 2.0, 1.0], [2.0, 1.0, 3.0], [1.0, 1.0, 2.0]]), "id2token": rng.random() < 0.6, "dims": rng.choice([1, 2]),
-                "hyp_positional": rng.random() < 0.5}
+                "hyp_positional": rng.random() < 0.5,
+                # stored ids below zero (a -> -1, b -> -2, ...): legal ids that coincide with values a command may use internally
+                "neg_ids": rng.random() < 0.2}
 
     @staticmethod
     def run(sc, s, cfg, res):
         rd, hd = (s.p("d", "ref"), s.p("d", "hyp")) if not sc["hyp_positional"] else (s.p("r"), s.p("h"))
         os.makedirs(rd)
         os.makedirs(hd)
+        TOK2ID = {tok: (-i - 1 if sc.get("neg_ids") else i) for tok, i in VOCAB}
         for u in sc["utts"]:
             for d, toks in ((rd, u["ref"]), (hd, u["hyp"])):
                 t = torch.tensor([TOK2ID[x] for x in toks], dtype=torch.long)
                 if sc["dims"] == 2:
                     t = torch.stack([t, torch.full_like(t, -1), torch.full_like(t, -1)], -1).reshape(-1, 3)
                 torch.save(t, os.path.join(d, fname(sc, u["id"])))
-        write_vocab(s.p("i2t"), True)
+        with open(s.p("i2t"), "w") as f:
+            for tok, _ in VOCAB:
+                f.write(f"{TOK2ID[tok]} {tok}\n")
 
         def enc(x):
             return x if sc["id2token"] else str(TOK2ID[x])
